@@ -797,6 +797,7 @@ def check_all(ctx, scs, want):
         if all(any(t in x[1] for t in timing) for x in o):
             rerun_n += 1
             again = [oracle(sc, r2, want) for r2 in run_pool([sc, sc, sc], procs=1)]
+            ctx.note("deadline suspect (%s: %s) run again alone three times: late again in %d" % (o[0][1][:80], str(o[0][2])[:80], sum(1 for a in again if a)))
             if any(again):
                 rerun_confirmed += 1
                 kept.append((sc, r, o))
